@@ -243,7 +243,7 @@ fn case_tags(case: &C09Case) -> Vec<String> {
 // ---------------------------------------------------------------------------------------------
 
 fn hostile_line(rng: &mut Rng, k: usize) -> Vec<u8> {
-    let s: Vec<u8> = match rng.below(72) {
+    let s: Vec<u8> = match rng.below(76) {
         64 => b" ```".to_vec(),
         65 => b"  ```sh".to_vec(),
         66 => b"   ````".to_vec(),
@@ -252,6 +252,11 @@ fn hostile_line(rng: &mut Rng, k: usize) -> Vec<u8> {
         69 => format!("     ```` x{k}").into_bytes(),
         70 => b"   ```".to_vec(),
         71 => b"      ``````python".to_vec(),
+        // a printable non-ASCII blank before something that reads like a modifier (the parser's `\s` accepts it)
+        72 => format!("5 MB{k}\u{a0}(re)").into_bytes(),
+        73 => format!("foo{k}\u{3000}(glob)").into_bytes(),
+        74 => format!("bar{k}\u{2003}(?)").into_bytes(),
+        75 => format!("baz{k}\u{a0}(regex+)").into_bytes(),
         0 => b"".to_vec(),
         1 => b"   ".to_vec(),
         2 => b" ".to_vec(),
